@@ -115,3 +115,26 @@ Lemma unfixed_refuted :
   exists re templ sets ls,
     spec_match re templ sets ls = true /\ matches_unfixed re templ sets ls = false.
 Proof. exists ex_re, ex_templ, ex_sets, ex_labels. vm_compute. split; reflexivity. Qed.
+
+(* ---- tie T: filterRulesByMatchers decides every rule on its own ----
+   every call in the function is one of len / r.GetLabels / matches, and the
+   call of matches is not guarded by any `if` (no cached verdicts) *)
+Fixpoint calls_at_if_depth0 (evs : list (string * string)) (depth : nat) : list string :=
+  match evs with
+  | [] => []
+  | (k, t) :: r =>
+    if String.eqb k "if" then calls_at_if_depth0 r (S depth)
+    else if String.eqb k "endif" then calls_at_if_depth0 r (pred depth)
+    else if String.eqb k "call" then
+      match depth with O => t :: calls_at_if_depth0 r depth | S _ => calls_at_if_depth0 r depth end
+    else calls_at_if_depth0 r depth
+  end.
+
+Definition filter_per_rule_ok : bool :=
+  forallb (fun e => negb (String.eqb (fst e) "call")
+                    || existsb (String.eqb (snd e)) ["len"; "r.GetLabels"; "matches"]%string)
+          filterRules_events
+  && existsb (String.eqb "matches") (calls_at_if_depth0 filterRules_events 0).
+
+Lemma filter_per_rule : filter_per_rule_ok = true.
+Proof. vm_compute. reflexivity. Qed.
